@@ -580,6 +580,23 @@ theorem refine_positions_inside (eps : Rat) (heps : 0 < eps) (cols : List (List 
         exact_mod_cast this
       refine ⟨⟨by simp only; linarith, by simp only; linarith⟩, p.1, h0, h1, by simp only; linarith, by simp only; linarith, rfl⟩
 
+/-- on a non-negative image the refined coordinates even lie between the centres of the first and the last pixel -/
+theorem refine_positions_between_pixel_centres (eps : Rat) (heps : 0 < eps) (cols : List (List Int)) (h : Nat) (n : Int)
+    (hn : 1 ≤ n) (hi : ImageOK cols n) (pts : List (Int × Nat)) (hin : ∀ p ∈ pts, 0 ≤ p.1 ∧ p.1 < n)
+    (out : List (Rat × Nat × Int)) (hr : refineMoment eps cols h n pts = .ok out) :
+    ∀ q ∈ out, (0 : Rat) ≤ q.1 ∧ q.1 ≤ (n : Rat) - 1 := by
+  unfold refineMoment at hr
+  split at hr
+  · cases hr
+  · split at hr
+    · cases hr
+    · rename_i ps hps
+      injection hr with hr
+      subst hr
+      intro q hq
+      obtain ⟨p, hp, rfl⟩ := List.mem_map.1 hq
+      exact refineLoop_position eps heps cols h n hn hi 100 pts ps hin hps p hp
+
 -- non-vacuity: a 5-pixel, 2-line image; two points that walk to the bright pixels
 example : ImageOK [[0, 1, 9, 1, 0], [0, 0, 2, 9, 1]] 5 := by
   intro col hcol
@@ -654,5 +671,37 @@ example : mergeCloseFrame 2 [(5, 4), (2, 7), (1, 3)] = [(5, 4), (2, 7)] := by de
 -- `sum_window_spec` needs `c ≥ −½`: below, `int()` truncates toward zero and the window is centred on pixel 0
 -- although the pixel containing the point is −1 (outside the image; no tracked point lies there)
 example : sumWindow [1, 2, 4] 0 (-3/4) (1/2) = 1 := by decide +kernel
+
+
+/-! ## Refined tracks, and programs that refine and edit -/
+
+/-- **`refine_tracks_centroid(…, bias_correction=False)` keeps tracks well formed**: on a non-negative image,
+    tracks with coordinates in `[0, n − 1]` come out with the line indices of their interpolation (one point per
+    line from first to last) and refined coordinates in `[0, n − 1]` again. -/
+theorem refine_tracks_wellformed (eps : Rat) (heps : 0 < eps) (cols : List (List Int)) (h : Nat) (n : Int) (hn : 1 ≤ n)
+    (hi : ImageOK cols n) (g g' : List Track)
+    (hg : ∀ t ∈ g, WellFormed (cols.length : Int) 0 ((n : Rat) - 1) t)
+    (hr : refineTracks eps cols h n g = .ok g') :
+    g'.map timesOf = (g.map interpolate).map timesOf ∧
+      ∀ t ∈ g', WellFormed (cols.length : Int) 0 ((n : Rat) - 1) t :=
+  refineTracks_wf eps heps cols h n hn hi g g' hg hr
+
+/-- **Every program of refinements (no bias correction), interpolations, splits, merges and filters keeps a
+    group well formed**, coordinates in `[0, n − 1]`. -/
+theorem refine_program_wellformed (eps : Rat) (heps : 0 < eps) (lt : Rat) (cols : List (List Int)) (n : Int) (hn : 1 ≤ n)
+    (hi : ImageOK cols n) (sts : List Step) (g : List Track)
+    (hg : ∀ t ∈ g, WellFormed (cols.length : Int) 0 ((n : Rat) - 1) t) :
+    ∀ t ∈ runSteps eps lt cols n sts g, WellFormed (cols.length : Int) 0 ((n : Rat) - 1) t :=
+  runSteps_wf eps heps lt cols n hn hi sts g hg
+
+example : runSteps (1/10000000) (1/2) [[0, 1, 9, 1, 0], [0, 0, 2, 9, 1], [0, 0, 1, 2, 8]] 5
+    [.refine 1, .edit (.split 0 1 1), .edit (.merge 0 0 1 1)] [[(0, 1), (2, 3)]]
+    = [[(0, 2), (2, (380000004 : Rat) / 100000001)]] := by decide +kernel
+example : WellFormed (([[0, 1, 9, 1, 0], [0, 0, 2, 9, 1], [0, 0, 1, 2, 8]] : List (List Int)).length : Int) 0 ((5 : Int) - 1 : Rat)
+    [(0, 1), (2, 3)] := by
+  refine ⟨by simp, by simp [Inc, timesOf], ?_⟩
+  intro p hp
+  simp only [List.mem_cons, List.not_mem_nil, or_false] at hp
+  rcases hp with rfl | rfl <;> norm_num
 
 end Verif.C08
